@@ -3,6 +3,7 @@ package main
 import (
 	"fmt"
 	"go/types"
+	"regexp"
 	"strings"
 
 	"golang.org/x/tools/go/ssa"
@@ -160,10 +161,22 @@ func intBits(t types.Type) int {
 
 // typeName gives a stable short name for heap-array naming.
 func typeName(t types.Type) string {
-	return types.TypeString(t, func(p *types.Package) string {
+	s := types.TypeString(t, func(p *types.Package) string {
 		return p.Name()
 	})
+	if strings.Contains(s, "byte") || strings.Contains(s, "rune") {
+		s = aliasRe.ReplaceAllStringFunc(s, func(m string) string {
+			if m == "byte" {
+				return "uint8"
+			}
+			return "int32"
+		})
+	}
+	return s
 }
+
+// byte and rune are aliases; heap arrays are named after the canonical type.
+var aliasRe = regexp.MustCompile(`\b(byte|rune)\b`)
 
 func smtInt(n int64) string {
 	if n < 0 {
@@ -288,6 +301,12 @@ func add(a, b string) string {
 	}
 	if a == "0" {
 		return b
+	}
+	// off + (j - off) = j  (quantifiers over slices are phrased over the absolute index j)
+	if strings.HasPrefix(b, "(- ") && strings.HasSuffix(b, " "+a+")") {
+		if x := b[3 : len(b)-len(a)-2]; balanced(x) {
+			return x
+		}
 	}
 	return "(+ " + a + " " + b + ")"
 }
